@@ -604,6 +604,25 @@ func (in *Interp) strIndex(s Value, idx Value, it types.Type, site ssa.Instructi
 		unsup("index into string with atoms: %s", show(s))
 	}
 	fr := in.curFrame
+	if sx, ok := idx.(Sym); ok && len(bs) > 1 && len(bs) <= 64 {
+		// a small string indexed by a symbolic integer ("0123456789ABCDEF"[c>>4], lookup tables): no fork per
+		// index value; the bounds check stays a proof obligation, the byte read is an if-then-else chain
+		w, signed := width(it)
+		var inRange *Term
+		if signed {
+			inRange = mkAnd(mkBin(OSLe, mkConst(0, w), sx.t), mkBin(OSLt, sx.t, mkConst(uint64(len(bs)), w)))
+		} else {
+			inRange = mkBin(OULt, sx.t, mkConst(uint64(len(bs)), w))
+		}
+		if !in.decide(inRange) {
+			panic(goPanic{val: fmt.Sprintf("runtime error: index out of range [symbolic] with length %d (string)", len(bs)), where: in.where(site)})
+		}
+		t := bs[len(bs)-1]
+		for k := len(bs) - 2; k >= 0; k-- {
+			t = mkIte(mkEq(sx.t, mkConst(uint64(k), w)), bs[k], t)
+		}
+		return symInt(t, false)
+	}
 	i := fr.concreteIndex(idx, it, len(bs), site, "string")
 	return symInt(bs[i], false)
 }
